@@ -1185,3 +1185,164 @@ Proof.
       rewrite (nth_overflow l) by (rewrite map_length, combine_length; lia) end.
     destruct j; auto.
 Qed.
+
+(* ------------------------------------------------------------------ configuration reached through setters *)
+Arguments e_steps {N} e.
+Arguments e_dt {N} e.
+Arguments e_freq {N} e.
+Arguments e_comp {N} e.
+Arguments e_derive {N} e.
+Arguments e_refrac {N} e.
+
+Definition is_refrac_assignment (a : assignment RN) : bool := match a with ARefrac _ _ => true | _ => false end.
+Definition is_dt_assignment (a : assignment RN) : bool := match a with ADt _ _ => true | _ => false end.
+
+Ltac assign_cases :=
+  repeat match goal with
+  | |- context [if ?b then _ else _] => destruct b eqn:?
+  | H : context [if ?b then _ else _] |- _ => destruct b eqn:?
+  end.
+
+(* an assignment other than to refrac leaves an explicit refractory period alone *)
+Lemma assign_keeps_explicit_refrac k (s : estate RN) a :
+  e_derive s = false -> is_refrac_assignment a = false ->
+  e_derive (fst (assign RN k s a)) = false /\ e_refrac (fst (assign RN k s a)) = e_refrac s.
+Proof.
+  intros Hd Ha. destruct a as [v|z|v|o|b]; try discriminate; destruct k; simpl; assign_cases; simpl; auto;
+    rewrite Hd in *; try discriminate; auto.
+Qed.
+
+Lemma run_assign_cons k (s : estate RN) a l :
+  run_assign RN k s (a :: l) = run_assign RN k (fst (assign RN k s a)) l.
+Proof.
+  unfold run_assign. simpl. destruct (assign_all RN k (fst (assign RN k s a)) l). reflexivity.
+Qed.
+
+(* --- the refractory period stays explicit once assigned: whatever is assigned afterwards to dt, steps,
+       frequency, compensated (accepted or rejected), refrac keeps its value and is not re-derived from dt *)
+Theorem explicit_refrac_sticky k (s : estate RN) l :
+  e_derive s = false -> forallb (fun a => negb (is_refrac_assignment a)) l = true ->
+  e_derive (run_assign RN k s l) = false /\ e_refrac (run_assign RN k s l) = e_refrac s.
+Proof.
+  revert s; induction l as [|a l IH]; intros s Hd Hl; [split; auto|].
+  simpl in Hl. apply andb_prop in Hl as [Ha Hl]. apply negb_true_iff in Ha.
+  rewrite run_assign_cons. destruct (assign_keeps_explicit_refrac k s a Hd Ha) as [H1 H2].
+  destruct (IH _ H1 Hl) as [H3 H4]. split; auto. congruence.
+Qed.
+
+(* --- an accepted assignment: the getter returns the assigned value, the documented validation held, and
+       the other attributes keep their values (refrac follows dt exactly when it is derived) *)
+Theorem assign_accepted_spec (s s' : estate RN) a :
+  assign RN KHpe s a = (s', None) ->
+  match a with
+  | ADt _ v => 0 < v /\ e_dt s' = v /\ e_refrac s' = (if e_derive s then v else e_refrac s) /\
+               e_steps s' = e_steps s /\ e_freq s' = e_freq s /\ e_comp s' = e_comp s /\ e_derive s' = e_derive s
+  | ASteps _ z => (0 < z)%Z /\ e_steps s' = z /\ e_dt s' = e_dt s /\ e_refrac s' = e_refrac s /\
+               e_freq s' = e_freq s /\ e_comp s' = e_comp s /\ e_derive s' = e_derive s
+  | AFreq _ v => 0 <= v /\ (e_comp s = true -> v * e_refrac s < 1000) /\ e_freq s' = v /\
+               e_steps s' = e_steps s /\ e_dt s' = e_dt s /\ e_refrac s' = e_refrac s /\
+               e_comp s' = e_comp s /\ e_derive s' = e_derive s
+  | ARefrac _ (Some v) => 0 <= v /\ (e_comp s = true -> v * e_freq s < 1000) /\ e_refrac s' = v /\
+               e_derive s' = false /\ e_steps s' = e_steps s /\ e_dt s' = e_dt s /\ e_freq s' = e_freq s /\
+               e_comp s' = e_comp s
+  | ARefrac _ None => (e_comp s = true -> e_dt s * e_freq s < 1000) /\ e_refrac s' = e_dt s /\
+               e_derive s' = true /\ e_steps s' = e_steps s /\ e_dt s' = e_dt s /\ e_freq s' = e_freq s /\
+               e_comp s' = e_comp s
+  | AComp _ b => (b = true -> e_freq s * e_refrac s < 1000) /\ e_comp s' = b /\
+               e_steps s' = e_steps s /\ e_dt s' = e_dt s /\ e_refrac s' = e_refrac s /\
+               e_freq s' = e_freq s /\ e_derive s' = e_derive s
+  end.
+Proof.
+  unfold assign, compat; rn_simpl. destruct a as [v|z|v|[v|]|b]; intros H.
+  - destruct (Rltb'_spec 0 v); inversion H; subst; simpl. repeat split; auto.
+  - destruct (Z.ltb_spec 0 z); inversion H; subst; simpl. repeat split; auto.
+  - destruct (e_comp s) eqn:Ec; simpl in H.
+    + destruct (Rltb'_spec (v * e_refrac s) 1000); simpl in H; [|discriminate].
+      destruct (Rleb'_spec 0 v); inversion H; subst; simpl. repeat split; auto.
+    + destruct (Rleb'_spec 0 v); inversion H; subst; simpl. repeat split; auto. discriminate.
+  - destruct (e_comp s) eqn:Ec; simpl in H.
+    + destruct (Rltb'_spec (v * e_freq s) 1000); simpl in H; [|discriminate].
+      destruct (Rleb'_spec 0 v); inversion H; subst; simpl. repeat split; auto.
+    + destruct (Rleb'_spec 0 v); inversion H; subst; simpl. repeat split; auto. discriminate.
+  - destruct (e_comp s) eqn:Ec; simpl in H.
+    + destruct (Rltb'_spec (e_dt s * e_freq s) 1000); simpl in H; inversion H; subst; simpl. repeat split; auto.
+    + inversion H; subst; simpl. repeat split; auto. discriminate.
+  - destruct b; simpl in H.
+    + destruct (Rltb'_spec (e_freq s * e_refrac s) 1000); simpl in H; inversion H; subst; simpl.
+      repeat split; auto.
+    + inversion H; subst; simpl. repeat split; auto. discriminate.
+Qed.
+
+(* --- a rejected assignment (ValueError) changes nothing - except that a rejected NEGATIVE refrac has already
+       switched off 'derive refrac from dt' (the flag is cleared before the value is validated) *)
+Theorem assign_rejected_unchanged k (s s' : estate RN) a :
+  assign RN k s a = (s', Some EValue) ->
+  s' = s \/ (exists v, a = ARefrac RN (Some v) /\ v < 0 /\ e_derive s' = false /\ e_refrac s' = e_refrac s).
+Proof.
+  unfold assign, compat, EValue; rn_simpl. intros H.
+  destruct a as [v|z|v|[v|]|b]; destruct k; simpl in H; assign_cases; inversion H; subst; auto.
+  right. exists v. repeat split; auto.
+  match goal with Hl : Rleb' 0 v = false |- _ => destruct (Rleb'_spec 0 v); [discriminate|lra] end.
+Qed.
+
+(* --- a derived refractory period follows the step time, through every assignment (accepted or rejected) *)
+Definition tracks_dt (s : estate RN) : Prop := e_derive s = true -> e_refrac s = e_dt s.
+
+Theorem construct_tracks_dt c s : construct RN KHpe c = Ok s -> tracks_dt s.
+Proof.
+  unfold construct. destruct (valid_step RN c && valid_refrac RN c); [|discriminate].
+  intros H; inversion H; subst. unfold tracks_dt, enc_refrac; simpl. destruct (c_refrac c); [discriminate|auto].
+Qed.
+
+Theorem assign_tracks_dt (s : estate RN) a : tracks_dt s -> tracks_dt (fst (assign RN KHpe s a)).
+Proof.
+  unfold tracks_dt. intros Hs. destruct a as [v|z|v|[v|]|b]; simpl; assign_cases; simpl; auto;
+    try discriminate; try (intros Hd; rewrite Hd in *; discriminate).
+Qed.
+
+Theorem run_tracks_dt (s : estate RN) l : tracks_dt s -> tracks_dt (run_assign RN KHpe s l).
+Proof.
+  revert s; induction l as [|a l IH]; intros s Hs; auto.
+  rewrite run_assign_cons. apply IH. apply assign_tracks_dt; auto.
+Qed.
+
+(* --- `refrac = None` re-pins the refractory period to the step time and it keeps following dt through every
+       later assignment that is not to refrac *)
+Lemma assign_keeps_derived (s : estate RN) a :
+  e_derive s = true -> is_refrac_assignment a = false -> e_derive (fst (assign RN KHpe s a)) = true.
+Proof.
+  intros Hd Ha. destruct a as [v|z|v|o|b]; try discriminate; simpl; assign_cases; simpl; auto.
+Qed.
+
+Theorem derived_refrac_follows_dt (s0 s1 : estate RN) l :
+  tracks_dt s0 -> assign RN KHpe s0 (ARefrac RN None) = (s1, None) ->
+  forallb (fun a => negb (is_refrac_assignment a)) l = true ->
+  e_derive (run_assign RN KHpe s1 l) = true /\ e_refrac (run_assign RN KHpe s1 l) = e_dt (run_assign RN KHpe s1 l).
+Proof.
+  intros H0 Ha Hl. pose proof (assign_accepted_spec _ _ _ Ha) as [_ [Hr [Hd [_ [Hdt _]]]]].
+  assert (Ht : tracks_dt s1) by (intros _; congruence).
+  assert (Hder : e_derive (run_assign RN KHpe s1 l) = true).
+  { clear Ht Hr Hdt Ha. revert s1 Hd Hl. induction l as [|a l IH]; intros s1 Hd Hl; auto.
+    simpl in Hl. apply andb_prop in Hl as [Ha Hl]. apply negb_true_iff in Ha.
+    rewrite run_assign_cons. apply IH; auto. apply assign_keeps_derived; auto. }
+  split; auto. apply (run_tracks_dt s1 l Ht); auto.
+Qed.
+
+(* --- setters then encode: after `refrac = v` is accepted, whatever else is assigned (not to refrac), an
+       accepted offline call keeps two spikes of an element at least floor(v / dt) steps apart, dt being the
+       step time in force at the call *)
+Theorem setters_then_encode_min_gap (s0 s1 : estate RN) v l xs draws out j t1 t2 :
+  assign RN KHpe s0 (ARefrac RN (Some v)) = (s1, None) ->
+  forallb (fun a => negb (is_refrac_assignment a)) l = true ->
+  let s := run_assign RN KHpe s1 l in
+  hpe_offline RN (forward_config RN s) xs draws = Ok out -> hpe_domain (forward_config RN s) xs ->
+  Forall (Forall (fun e => 0 <= e)) draws ->
+  (t1 < t2)%nat -> nth j (nth t1 out []) false = true -> nth j (nth t2 out []) false = true ->
+  (Zfloor (v / e_dt s) <= Z.of_nat t2 - Z.of_nat t1)%Z.
+Proof.
+  intros Ha Hl s H Hdom Hd Hlt H1 H2.
+  pose proof (assign_accepted_spec _ _ _ Ha) as [_ [_ [Hv [Hder _]]]].
+  destruct (explicit_refrac_sticky KHpe s1 l Hder Hl) as [_ Hr]. fold s in Hr.
+  pose proof (hpe_offline_min_gap _ _ _ _ _ _ _ H Hdom Hd Hlt H1 H2) as G.
+  unfold forward_config, enc_refrac in G; simpl in G. rewrite Hr, Hv in G. exact G.
+Qed.
